@@ -49,8 +49,9 @@ TRUSTED = [
     'part of the differential tie',
 ]
 ASSUMPTIONS = [
-    'WF of C14_eval: the locally returned value is not itself an Exception instance and a raised exception has no '
-    'attribute code == 4 (both are reproduced as known findings C14-F1 / C14-F2 with Lean witnesses)',
+    'WF of C14_eval: the locally returned value is not itself an Exception instance (reproduced as known finding C14-F1 '
+    'with a Lean witness); the former second condition (no attribute code == 4 on a raised exception, C14-F2) is repaired '
+    'in the code and dropped from the theorems',
     'arguments of handle calls are plain values (a RemoteObject passed as an argument would make the server call '
     'itself; not generated)',
     'messages of exceptions raised inside the C17 callable library are not modelled in Lean (kind only); the '
@@ -1419,7 +1420,7 @@ def _compare_hist(impl, model):
 # ----------------------------------------------------------------------------- oracle
 
 F1 = 'C14-F1'    # a returned Exception instance is raised by the client
-F2 = 'C14-F2'    # an application exception with attribute code == 4 becomes TimeoutError
+F2 = 'C14-F2'    # (fixed) an application exception with attribute code == 4 became TimeoutError
 
 
 def _failures(case, obs):
@@ -1535,9 +1536,8 @@ def _failures(case, obs):
             yield f'{where}: after a shutdown request a failing call must answer TimeoutError, got {re_}'
             continue
         elif not _same_exc(re_, le, False):
-          if le.get('code') == 4:
-            yield f'{where}: [{F2}] local evaluation raises {le} (attribute code == 4), the client raised {re_}'
-            continue
+          # (an application exception with attribute code == 4 used to come back as TimeoutError: C14-F2, repaired
+          # in the code — a recurrence is a violation like any other)
           yield f'{where}: local evaluation raises {le}, the client raised {re_}'
           continue
 
@@ -1750,8 +1750,6 @@ def extra(ctx):
 def finding(case, what):
   if f'[{F1}]' in what:
     return F1
-  if f'[{F2}]' in what:
-    return F2
   return None
 
 
